@@ -7,6 +7,8 @@ import (
 	"sync"
 
 	hms "github.com/smarthome-go/homescript/v3/homescript"
+	"github.com/smarthome-go/homescript/v3/homescript/analyzer"
+	herrors "github.com/smarthome-go/homescript/v3/homescript/errors"
 	"github.com/smarthome-go/homescript/v3/homescript/analyzer/ast"
 	"github.com/smarthome-go/homescript/v3/homescript/compiler"
 	"github.com/smarthome-go/homescript/v3/homescript/diagnostic"
@@ -41,9 +43,13 @@ func Analyze(p Program, prov Provider) (a Analyzed) {
 			a.PanicMsg = fmt.Sprint(r)
 		}
 	}()
+	adds := hms.TestingAnalyzerScopeAdditions()
+	adds["tick"] = analyzer.NewBuiltinVar(ast.NewFunctionType(
+		ast.NewVarArgsFunctionTypeParamKind([]ast.Type{}, ast.NewUnknownType()),
+		herrors.Span{}, ast.NewNullType(herrors.Span{}), herrors.Span{}))
 	mods, diags, syn := hms.Analyze(
 		hms.InputProgram{ProgramText: p.Modules[p.Entry], Filename: p.Entry},
-		hms.TestingAnalyzerScopeAdditions(), prov, true)
+		adds, prov, true)
 	a.Modules = mods
 	for _, d := range diags {
 		a.Diags = append(a.Diags, diagString(d))
